@@ -508,6 +508,19 @@ func add[T any](s spec[T]) {
 		if len(outs) == 0 {
 			return
 		}
+		// encoding must not change the value: every path, run once more after
+		// all paths have run, writes the same document as the first time
+		for i, f := range fns {
+			var data []byte
+			var err error
+			if pn := ev.Guard(func() { data, err = f() }); pn != "" {
+				fail("%s panicked when the value was encoded a second time: %s", names[i], pn)
+			}
+			c, cerr := canonFromBytes(data)
+			if err != nil || cerr != nil || cs(c) != cs(outs[i].c) {
+				fail("encoding is not repeatable (an encoder modified the value): %s wrote\n first: %q\n again: %q (err %v)", names[i], outs[i].data, data, err)
+			}
+		}
 		// the token stream itself, without an encoder in between, must be the
 		// same document as its serialization
 		if tr, ok := holder(p).(tokenReaderer); ok {
